@@ -222,6 +222,8 @@ def s_minmax(I, st, args, kwargs, which=None):
 
 def _minmax(which):
     def f(I, st, args, kwargs):
+        if len(args) == 1 and isinstance(args[0], VObj) and args[0].cls == 'DictValues':
+            return dict_values_extreme(I, st, args[0].fields['dict'], which)
         if len(args) == 1 and isinstance(args[0], VSeq) and 'key' not in kwargs:
             return seq_extreme(I, st, args[0], which)
         if len(args) >= 2 and all(isinstance(a, (VInt, VReal, VBool)) for a in args):
@@ -666,7 +668,22 @@ def attribute(I, st, base, attr):
     return None
 
 
-def subscript(I, st, base, sl, txt):
+def frame_column(I, st, frame, name, txt=''):
+    """df[name]: the column as a sequence of cells (ints for a coded frame, strings otherwise)."""
+    cols = frame.fields['columns']
+    I.oblige(st, f'key[{txt}]', I.contains(cols, name, st), text=txt)
+    data = frame.fields['data'].t
+    cells = frame.fields.get('cells')
+    kind = cells.concrete() if isinstance(cells, VStr) and cells.concrete() else 'str'
+    es = z3.IntSort() if kind == 'int' else sort_of('pstr')
+    COL = z3.Function('frame_col_' + kind, data.sort(), name.t.sort(), z3.ArraySort(z3.IntSort(), es))
+    v = VSeq('int' if kind == 'int' else 'pstr', frame.fields['nrows'].t, COL(data, name.t), flavor='array')
+    return VObj('Series', {'values': v, 'name': name})
+
+
+def subscript(I, st, base, idx, txt):
+    if isinstance(base, VObj) and base.cls == 'DataFrame' and isinstance(idx, VStr):
+        return frame_column(I, st, base, idx, txt)
     return None
 
 
@@ -706,6 +723,26 @@ def m_dict_keys(I, st, d):
 
 
 _METHODS[(VDict, 'keys')] = m_dict_keys
+
+
+def m_dict_values(I, st, d):
+    return VObj('DictValues', {'dict': d})
+
+
+_METHODS[(VDict, 'values')] = m_dict_values
+
+
+def dict_values_extreme(I, st, d, which):
+    """max/min over dict.values(): needs a non-empty dict; bound on every stored value and attained by some key."""
+    if d.size is not None:
+        I.oblige(st, f'nonempty[{which}(dict.values())]', d.size > 0)
+    m = fresh_value(d.vk, which)
+    x = z3.Const(fresh_name('x'), sort_of(d.kk))
+    w = z3.Const(fresh_name('w'), sort_of(d.kk))
+    cmp_ = (d.val[x] <= m.t) if which == 'max' else (d.val[x] >= m.t)
+    I.assume(st, z3.ForAll([x], z3.Implies(d.dom[x], cmp_), patterns=[d.val[x]]))
+    I.assume(st, z3.And(d.dom[w], d.val[w] == m.t))
+    return m
 
 
 def m_dict_copy(I, st, d):
@@ -956,3 +993,78 @@ def s_sorted2(I, st, args, kwargs):
         lst = materialize(I, st, s_list(I, st, [args[0]], {}))
         return _sorted_seq(I, st, [lst] + list(args[1:]), kwargs)
     return _sorted_seq(I, st, args, kwargs)
+
+
+# ----------------------------------------------------------------------------- objects (pool, timers, rng)
+_OBJ_METHODS: dict = {}
+
+
+def obj_method(cls, name):
+    return _OBJ_METHODS.get((cls, name))
+
+
+def objmethod(cls, name):
+    def deco(f):
+        _OBJ_METHODS[(cls, name)] = f
+        TRUSTED_NAMES.add(f'{cls}.{name}')
+        return f
+    return deco
+
+
+@stub('timer', 'time.time')
+def s_timer(I, st, args, kwargs):
+    return VReal(z3.Real(fresh_name('clock')))
+
+
+@stub('random.shuffle')
+def s_shuffle(I, st, args, kwargs):
+    """random.shuffle(L): in-place permutation chosen by the module RNG stream (values unconstrained)."""
+    L = args[0]
+    if L.arr is None:
+        return VNone()
+    L2 = materialize(I, st, L)
+    n = L.length
+    R = z3.Array(fresh_name('shuffled'), z3.IntSort(), sort_of(L.ek))
+    pi = z3.Function(fresh_name('perm'), z3.IntSort(), z3.IntSort())
+    pinv = z3.Function(fresh_name('perminv'), z3.IntSort(), z3.IntSort())
+    i = z3.Int(fresh_name('i'))
+    I.assume(st, z3.ForAll([i], z3.Implies(z3.And(i >= 0, i < n), z3.And(pi(i) >= 0, pi(i) < n, R[i] == L2.arr[pi(i)],
+                                                                      pinv(pi(i)) == i)), patterns=[R[i]]))
+    I.assume(st, z3.ForAll([i], z3.Implies(z3.And(i >= 0, i < n), z3.And(pinv(i) >= 0, pinv(i) < n, pi(pinv(i)) == i,
+                                                                      R[pinv(i)] == L2.arr[i])), patterns=[pinv(i), L2.arr[i]]))
+    L.arr = R
+    return VNone()
+
+
+@objmethod('Pool', '__enter__')
+def pool_enter(I, st, pool):
+    return pool
+
+
+@objmethod('Pool', 'amap')
+def pool_amap(I, st, pool, f, xs):
+    """pathos ProcessingPool.amap(f, xs).get() == [f(x) for x in xs], in the order of xs; every f(x) runs in an
+    isolated worker process on a copy of the state at call time (the only concurrency fact used)."""
+    xs2 = materialize(I, st, xs) if xs.arr is not None else xs
+    k = z3.Int(fresh_name('k'))
+    if xs2.arr is None:
+        return VObj('AsyncResult', {'value': VSeq('unknown', z3.IntVal(0), None)})
+    st.guards.append(z3.And(k >= 0, k < xs2.length))
+    try:
+        r = f.call(I, st, [from_term(xs2.arr[k], xs2.ek)], {})
+    finally:
+        st.guards.pop()
+    ek = r.kind
+    R = z3.Array(fresh_name('amap'), z3.IntSort(), sort_of(ek))
+    I.assume(st, z3.ForAll([k], z3.Implies(z3.And(k >= 0, k < xs2.length), R[k] == to_term(r, ek)), patterns=[R[k], xs2.arr[k]]))
+    return VObj('AsyncResult', {'value': VSeq(ek, xs2.length, R, flavor='list')})
+
+
+@objmethod('AsyncResult', 'ready')
+def ar_ready(I, st, ar):
+    return VBool(z3.Bool(fresh_name('ready')))
+
+
+@objmethod('AsyncResult', 'get')
+def ar_get(I, st, ar):
+    return ar.fields['value']
